@@ -501,6 +501,23 @@ let handle (r : reader) : unit =
            List.iter (fun (a, b) -> out_elems a; out_elems b) l
        | StErr SElemNotFound -> out_s "ERR ElemNotFound"
        | StErr (SAscii e) -> out_s ("ERR " ^ aerr_name e))
+  | "ASSW" ->
+      (* ASSW q w d use_len ranges -> the characters to_ascii_stream writes *)
+      let q = next_qty r in
+      let w = next_n r in
+      let d = next_n r in
+      let ul = next_int r <> 0 in
+      let l = next_ranges r in
+      out_s "OK"; out_hex (to_ascii_stream q d ul (elems_of_moc q w d l))
+  | "ASSR" ->
+      (* ASSR q w hex -> from_ascii_stream: depth and elements in file order, or the error kind *)
+      let q = next_qty r in
+      let w = next_n r in
+      let s = bytes_of_hex (next r) in
+      (match from_ascii_stream q w s with
+       | SOk (d, es) -> out_s "OK"; out_n d; out_elems es
+       | SErr e -> out_s ("ERR " ^ (match e with SEmptyReader -> "EmptyReader" | SQtyExpected -> "QtyExpectedAtFirstLine"
+                                    | SNoData -> "NoData" | SDepthExpected -> "DepthExpectedAtSecondLine" | SDepthNotValid -> "Depth")))
   | "HIST" -> handle_hist r
   | "MSET" -> handle_mset r
   | "TEXTV" ->
